@@ -5,6 +5,7 @@
 //@include prelude/ax.rs
 //@include prelude/macros_env.rs
 //@include prelude/calls_spec.rs
+//@include prelude/calls_expands.rs
 #[verifier::external_body] pub struct CommonToken { x: u8 }
 pub struct ParserHelper { pub next_id: u64 }
 pub struct Parser { pub helper: ParserHelper, pub errors: Vec<ParseError> }
